@@ -86,6 +86,12 @@ func (m MetavarMatcher) Match(got reflect.Value, d data.Data, r Region) (data.Da
 		return d, false
 	}
 
+	// An absent optional node (the label of a bare "break") leaves nothing
+	// for the metavariable to stand for.
+	if got.Kind() == reflect.Ptr && got.IsNil() {
+		return d, false
+	}
+
 	key := metavarKey(m.Name)
 
 	var md metavarData
